@@ -417,13 +417,32 @@ class Interp:
         pass
 
     def s_Assign(self, st, s, fr):
-        v = self.eval(st, s.value, fr)
+        v = self._local_map(st, s.value, s.targets[0] if len(s.targets) == 1 else None, fr)
+        if v is None:
+            v = self.eval(st, s.value, fr)
         for t in s.targets:
             self.assign_target(st, t, v, fr)
 
     def s_AnnAssign(self, st, s, fr):
         if s.value is not None:
-            self.assign_target(st, s.target, self.eval(st, s.value, fr), fr)
+            v = self._local_map(st, s.value, s.target, fr)
+            self.assign_target(st, s.target, self.eval(st, s.value, fr) if v is None else v, fr)
+
+    def _local_map(self, st, value, target, fr):
+        """`name = {}` / `name: dict[..] = {}` in the function under contract, for a name the contract lists in
+        `local_maps = {name: MapOf(key shape, value shape)}`: the empty dict is modelled as a dict with SYMBOLIC keys
+        (pyvc.fmap.SFMap) of that shape instead of the constant-key DRef -- a choice of representation only: both are
+        models of the same empty dict, the SFMap one admits `d[i] = v` for a symbolic int `i` (keys / values that do
+        not fit the declared shapes are Unsupported there)."""
+        lm = getattr(getattr(self.task, "c", None), "local_maps", None)
+        if not lm or not (isinstance(value, ast.Dict) and not value.keys and isinstance(target, ast.Name) and target.id in lm):
+            return None
+        if fr.fn is None or fr.fn.ref.key != self.task.ref.key:
+            return None
+        from .fmap import SFMap, empty_map
+
+        shp = lm[target.id]
+        return SFMap(empty_map(st, target.id, shp.keys, shp.val))
 
     def s_AugAssign(self, st, s, fr):
         t = s.target
@@ -969,8 +988,10 @@ class Interp:
         for f in reversed(chain):
             d.update(f.locals)
         for k, v in list(d.items()):
-            if isinstance(v, (SObj, LRef)):
-                d[k] = v.snapshot()  # lists too: the loop havoc replaces a mutated list's content in place
+            if isinstance(v, (SObj, LRef)) or (isinstance(v, ModelObj) and hasattr(v, "py_version")):
+                # lists too: the loop havoc replaces a mutated list's content in place; likewise a versioned model
+                # object (a dict with symbolic keys): `at_entry.<name>` is its value when the loop was reached
+                d[k] = v.snapshot()
         return View(d)
 
     def iter_view(self, st, it):
